@@ -139,6 +139,15 @@ type tplTok struct {
 	sp   int // RouterJSR311 templates, JAX-RS style blanks: 1 "{name : re}", 2 "{ name: re }", 3 "{ name }" / "{name :*}"
 }
 
+func hasKind(toks []tplTok, kind int) bool {
+	for _, t := range toks {
+		if t.kind == kind {
+			return true
+		}
+	}
+	return false
+}
+
 func (t tplTok) render() string {
 	s := ""
 	switch t.kind {
@@ -285,8 +294,9 @@ func renderPath(toks []tplTok, r *Rng) string {
 }
 
 type genRoute struct {
-	spec RouteSpec
-	toks []tplTok // root + route tokens
+	spec   RouteSpec
+	toks   []tplTok // root + route tokens
+	twinOf int      // the generic twin of the route with that id (0: none); requests are aimed at such pairs
 }
 
 func genMimeList(r *Rng) []string {
@@ -383,7 +393,7 @@ func genTable(r *Rng, router int, maxWs int) (TableSpec, []genRoute) {
 		for i := 0; i < nr; i++ {
 			var toks []tplTok
 			var sibling *RouteSpec
-			crossed := false
+			crossed, generic := false, false
 			if i > 0 && r.Pct(35) {
 				// a sibling of an earlier route: same shape with one token changed, or same path other method
 				prev := all[len(all)-1-r.Intn(min(i, len(all)))]
@@ -403,6 +413,31 @@ func genTable(r *Rng, router int, maxWs int) (TableSpec, []genRoute) {
 						} else if toks[k].kind == 3 {
 							toks[k] = tplTok{kind: 0, text: r.Pick([]string{"report", "x", "ab"}) + toks[k].suf} // /x/report.json next to /x/{id}.json
 						}
+					}
+				} else if hasKind(toks, 3) && r.Pct(50) {
+					// the literal twin of a route with a {var}suffix token: the same path with that token spelled out, same
+					// method and media types (the literal must win where both match)
+					crossed, generic = true, true
+					for k := range toks {
+						if toks[k].kind == 3 {
+							toks[k] = tplTok{kind: 0, text: r.Pick([]string{"report", "x", "ab"}) + toks[k].suf}
+						}
+					}
+				} else if hasKind(toks, 2) && r.Pct(80) {
+					// the generic twin of a route with regular-expression variables: the same path with those variables
+					// made plain ones, same method (the specific route must keep winning where its expressions match)
+					crossed = true
+					generic = true
+					lit := -1
+					for k := range toks {
+						if toks[k].kind == 2 {
+							toks[k] = tplTok{kind: 1, name: toks[k].name + "g", verb: toks[k].verb}
+						} else if toks[k].kind == 0 && toks[k].verb == "" && (lit < 0 || r.Bool()) {
+							lit = k
+						}
+					}
+					if lit >= 0 { // ... and one literal segment a variable too: the twin is dominated
+						toks[lit] = tplTok{kind: 1, name: "g" + itoa(lit)}
 					}
 				} else if len(toks) > 0 && r.Pct(70) {
 					k := r.Intn(len(toks))
@@ -439,7 +474,13 @@ func genTable(r *Rng, router int, maxWs int) (TableSpec, []genRoute) {
 				rs.NoCT = r.Subset([]string{"POST", "PUT", "GET"}, 50)
 			}
 			sv.Routes = append(sv.Routes, rs)
-			all = append(all, genRoute{spec: rs, toks: append(append([]tplTok{}, rootToks...), toks...)})
+			gr := genRoute{spec: rs, toks: append(append([]tplTok{}, rootToks...), toks...)}
+			if generic {
+				gr.twinOf = sibling.ID
+				gr.spec.Consumes, gr.spec.Produces = sibling.Consumes, sibling.Produces // eligible for the same requests
+				sv.Routes[len(sv.Routes)-1] = gr.spec
+			}
+			all = append(all, gr)
 		}
 		if crossedRoot && len(t.Services) > 0 && r.Pct(60) {
 			// the crossing service also offers the previous service's routes, so that one URL can be meant for both
@@ -518,10 +559,31 @@ func genRequest(r *Rng, routes []genRoute) *Req {
 			mut--
 		}
 		partner := overlapPartner(r, routes, gr)
+		twins := []int{}
+		for i, o := range routes {
+			if o.twinOf > 0 {
+				twins = append(twins, i)
+			}
+		}
+		if len(twins) > 0 && r.Pct(65) {
+			// aimed at a generic twin and the route it was made from
+			gr = routes[twins[r.Intn(len(twins))]]
+			partner = nil
+			for i := range routes {
+				if routes[i].spec.ID == gr.twinOf && len(routes[i].toks) == len(gr.toks) {
+					partner = &routes[i]
+				}
+			}
+			if r.Pct(70) {
+				mut, badTok = 0, -1
+			}
+		}
 		segs := []string{}
 		for i, t := range gr.toks {
 			if partner != nil && (t.kind == 1 || (t.kind == 3 && strings.HasSuffix(partner.toks[i].text, t.suf))) && partner.toks[i].kind == 0 && i != badTok {
 				segs = append(segs, partner.toks[i].text) // aimed at both routes
+			} else if partner != nil && t.kind == 1 && partner.toks[i].kind == 2 && i != badTok {
+				segs = append(segs, partner.toks[i].instance(r, true)) // a value the partner's expression admits
 			} else {
 				segs = append(segs, t.instance(r, i != badTok))
 			}
@@ -744,8 +806,11 @@ func buildContainer(t TableSpec, pr *probe) (c *restful.Container, kept TableSpe
 		// set-up variation: when every route of the service declares its media types, half of the services declare the
 		// first route's lists on the WebService and leave them out on the routes that have exactly those (routes inherit
 		// what they do not declare)
+		// ... and later routes may re-declare the service's lists before they are added (the routes added before keep what
+		// they inherited); every call gets a slice of its own
 		var wsProduces, wsConsumes []string
-		if len(sv.Routes) > 0 && len(sv.Routes)%2 == 0 {
+		wsLevel := len(sv.Routes) > 0 && len(sv.Routes)%2 == 0
+		if wsLevel {
 			allP, allC := true, true
 			for _, rs := range sv.Routes {
 				allP = allP && len(rs.Produces) > 0
@@ -753,15 +818,25 @@ func buildContainer(t TableSpec, pr *probe) (c *restful.Container, kept TableSpe
 			}
 			if allP {
 				wsProduces = sv.Routes[0].Produces
-				ws.Produces(wsProduces...)
+				ws.Produces(append([]string(nil), wsProduces...)...)
 			}
 			if allC {
 				wsConsumes = sv.Routes[0].Consumes
-				ws.Consumes(wsConsumes...)
+				ws.Consumes(append([]string(nil), wsConsumes...)...)
 			}
 		}
-		for _, rs := range sv.Routes {
+		for ri, rs := range sv.Routes {
 			rs := rs
+			if wsLevel && ri > 0 && (rs.ID+ri)%2 == 0 {
+				if wsProduces != nil && len(rs.Produces) > 0 && !sameStrings(rs.Produces, wsProduces) {
+					wsProduces = rs.Produces
+					ws.Produces(append([]string(nil), wsProduces...)...)
+				}
+				if wsConsumes != nil && len(rs.Consumes) > 0 && !sameStrings(rs.Consumes, wsConsumes) {
+					wsConsumes = rs.Consumes
+					ws.Consumes(append([]string(nil), wsConsumes...)...)
+				}
+			}
 			b := ws.Method(rs.Method).Path(rs.Rel)
 			if len(rs.Consumes) > 0 && !(wsConsumes != nil && sameStrings(rs.Consumes, wsConsumes)) {
 				b.Consumes(rs.Consumes...)
